@@ -47,11 +47,14 @@ def fail_tokens(kind):
     raise ValueError(kind)
 
 
-def gen_test(rng, idx, failure=None, kinds=None):
-    kinds = kinds or ["xor_add", "mul", "div", "mod", "sdiv", "addmod", "mulmod", "exp", "bytes_len", "arr_sum", "unsat", "two_args", "storage",
+ALL_KINDS = ["xor_add", "mul", "div", "mod", "sdiv", "addmod", "mulmod", "exp", "bytes_len", "arr_sum", "unsat", "two_args", "storage",
                       "signed", "shift", "nested_assert", "conj3", "loop_guard", "arr_loop", "bytes_tail", "disarm", "storage", "storage2",
                       "smod_zero", "mod_zero", "div_zero", "sdiv_zero", "addmod_zero", "mulmod_zero",
                       "div_zero_hit", "mod_zero_hit", "sdiv_zero_hit", "smod_zero_hit", "nested_stuck", "mul_exp", "two_fail", "multi_width"]
+
+
+def gen_test(rng, idx, failure=None, kinds=None):
+    kinds = kinds or ALL_KINDS
     kind = rng.choice(kinds)
     failure = failure or rng.choice(["panic1", "panic1", "panic11", "vmassert", "vmasserteq", "failflag"])
     name = f"check_t{idx}"
@@ -239,7 +242,7 @@ def gen_test(rng, idx, failure=None, kinds=None):
     raise ValueError(kind)
 
 
-def gen_contract(rng, ntests=3, name="T", kinds=None, failure=None, symbolic_setup=False):
+def gen_contract(rng, ntests=3, name="T", kinds=None, failure=None, symbolic_setup=False, force_first=None):
     # setUp also writes a slot addressed by a hard-coded hash constant (keccak of a word that is not in halmos' precomputed table)
     body = [SETUP_SLOT_VALUE, 1, "SSTORE", 7, ("push", LIT_HASH_SLOT, 32), "SSTORE"]
     if symbolic_setup:
@@ -249,6 +252,9 @@ def gen_contract(rng, ntests=3, name="T", kinds=None, failure=None, symbolic_set
         body += A.svm_create_uint256("u") + [7, "EQ", 0x600, "MSTORE"] + vm("assume(bool)", [0x600, "MLOAD"])
     setup = Fn("setUp", [], body + ["STOP"])
     tests = [gen_test(rng, i, failure=failure, kinds=kinds) for i in range(ntests)]
+    if force_first:
+        # stratification: the caller cycles through the kinds so that every kind is exercised a guaranteed number of times per run
+        tests[0] = gen_test(rng, 0, failure=failure, kinds=[force_first])
     if kinds is None and ntests >= 2 and rng.random() < 0.25:
         # state-interaction contract: an earlier test overwrites what setUp stored, a later test is guarded by it
         tests[0] = gen_test(rng, 0, failure=failure, kinds=["disarm"])
